@@ -85,6 +85,16 @@ def run(project, chk):
 
     eff = Effects(project)
     main = project.func(MAIN)
+    chk.rule("I6", "nothing the per-file processing reaches keeps state between calls in a mutable default argument (it would carry one stylesheet's custom properties / visited sets into the next)")
+    from sa.effects import Effects as _Eff, shared_default_state
+    _eff = _Eff(project)
+    _closure = _eff.reach(MAIN) | {MAIN}
+    _shared = shared_default_state(project, _eff, _closure)
+    for f2, pn, dn, sites in _shared:
+        chk.fail("I6", f2.short, f"{pn}={norm_text(dn)}", project.loc(f2.module, dn),
+                 f"{f2.name} mutates its mutable default argument {pn}={norm_text(dn)} (line(s) {sorted({getattr(x, 'lineno', 0) for x in sites})}): state survives from one file of the batch to the next")
+    if not _shared:
+        chk.ok("I6", f"{project.loc(main.module, main.node)} {main.short}", f"none of the {len(_closure)} functions reachable from main mutates a mutable default argument", "default-argument census over the call closure")
     m = main.module
     cfg = build_cfg(main.node)
     chk.saw_function(main, cfg)
